@@ -78,7 +78,9 @@ Fixpoint walk (idx : index) (w : win) (oldest : Z) (items : list item) (stop : b
                 end
   end.
 
-Definition fuel_of (b : block) : nat := S (N.to_nat (b_height b)).
+(* height+1 iterations suffice when heights decrease by one along parent links; the slack lets the
+   model follow the (unbounded) Go loop on the malformed heights some harness scenarios use *)
+Definition fuel_of (b : block) : nat := S (N.to_nat (b_height b) + 64).
 Definition no_marks (n : nat) : list bool := repeat false n.
 
 (* IsRepeat(parent, now, containers): (bitset, error) *)
